@@ -28,8 +28,9 @@ class ContinueSignal(Exception): pass
 class Arr:
     """array / pointer: a store map from concrete index (int or tuple) to value; reads of unset slots call default."""
 
-    def __init__(self, name='arr', default=None, offset=0, base=None):
+    def __init__(self, name='arr', default=None, offset=0, base=None, shape=None):
         self.name = name; self.default = default
+        self.shape = shape
         self.store = {} if base is None else base.store
         self.base = base if base is not None else self
         self.offset = offset
@@ -451,7 +452,7 @@ class Interp:
             return Builtin(n)
         if n in ('sin', 'cos', 'tan', 'exp', 'sqrt', 'cbrt', 'log', 'fabs', 'pi', 'M_PI', 'NAN', 'INFINITY', 'isnan',
                  'isinf', 'tgamma', 'floor', 'pow', 'creal', 'cimag', 'cabs', 'csqrt', 'cexp', 'fmin', 'fmax', 'NULL',
-                 'sizeof', 'copysign', 'hypot', 'atan2', 'signbit', 'isfinite', 'log2', 'ldexp', 'frexp', 'DBL_MAX', 'DBL_MIN', 'DBL_EPSILON'):
+                 'sizeof', 'copysign', 'hypot', 'prange', 'atan2', 'signbit', 'isfinite', 'log2', 'ldexp', 'frexp', 'DBL_MAX', 'DBL_MIN', 'DBL_EPSILON'):
             return self.external('libc.math', n)
         if n == '__cast__': return Builtin('__cast__')
         if n == '__addr__': return Builtin('__addr__')
@@ -497,7 +498,11 @@ class Interp:
             return ('dictmethod', base, a)
         if isinstance(base, list) and a in ('append',):
             return ('listmethod', base, a)
-        if isinstance(base, Arr) and a in ('real', 'imag', 'shape', 'size', 'copy', 'conj', 'T'):
+        if isinstance(base, Arr) and a == 'shape':
+            if base.shape is None:
+                raise AnalysisError(f'{fr.mod.where(e)}: shape of an array of unknown extent')
+            return tuple(base.shape)
+        if isinstance(base, Arr) and a in ('real', 'imag', 'size', 'copy', 'conj', 'T'):
             return ('arrattr', base, a)
         if isinstance(base, Builtin):
             return Builtin(base.name + '.' + a)
@@ -814,6 +819,7 @@ class Interp:
         if nm == 'len':
             a = args[0]
             if isinstance(a, (tuple, list, dict, str)): return len(a)
+            if isinstance(a, Arr) and a.shape: return a.shape[0]
             raise AnalysisError('len of symbolic object')
         if nm in ('float', 'complex128', 'float64', 'asarray', 'array', 'ascontiguousarray', 'copy', '__cast__'):
             if nm == '__cast__':
@@ -839,9 +845,19 @@ class Interp:
         if nm in ('ones_like',):
             return X.ONE
         if nm in ('zeros', 'empty', 'full'):
-            return Arr(nm, default=(lambda k: X.ZERO) if nm == 'zeros' else None)
+            shp = args[0] if args else None
+            if isinstance(shp, int): shp = (shp,)
+            if isinstance(shp, list): shp = tuple(shp)
+            if not (isinstance(shp, tuple) and all(isinstance(v, int) for v in shp)): shp = None
+            return Arr(nm, default=(lambda k: X.ZERO) if nm == 'zeros' else None, shape=shp)
+        if nm == 'prange':
+            return self.builtin('range', args, kwargs, e, fr)
+        if (nm in UNARY_FUNCS or nm in NP_ALIASES) and args and isinstance(args[0], Arr):
+            base = args[0]
+            t = NP_ALIASES.get(nm, nm)
+            return Arr(f'{t}({base.name})', default=lambda k, b=base, t=t: X.fn(t, to_node(b.get(k))), shape=base.shape)
         if nm in UNARY_FUNCS:
-            return X.fn(nm, to_node(args[0])) if nm != 'sqrt' or True else None
+            return X.fn(nm, to_node(args[0]))
         if nm in NP_ALIASES:
             a = to_node(args[0])
             t = NP_ALIASES[nm]
